@@ -136,5 +136,5 @@ func TestFederationService(t *testing.T) {
 	if !has {
 		t.Skip("no federation project linked")
 	}
-	vfrun.Run(t, vfrun.Prop[SvcCase]{Property: "C16", Name: "TestFederationService", Gen: genService, Check: checkService}, vfrun.N(400, 8000))
+	vfrun.Run(t, vfrun.Prop[SvcCase]{Property: "C16", Name: "TestFederationService", Gen: genService, Check: checkService}, vfrun.N(400, 40000))
 }
